@@ -42,6 +42,19 @@ func (t *templateNode) execute(data any) (any, error) {
 }
 
 func (s *sliceNode) execute(data any) (any, error) {
+	if s.typ.Kind() == reflect.Array {
+		// An array ([2]string, uuid.UUID, ...) is walked like a slice; reflect.MakeSlice panics on it.
+		values := reflect.New(s.typ).Elem()
+		for i, child := range s.children {
+			value, err := child.execute(data)
+			if err != nil {
+				return nil, err
+			}
+			values.Index(i).Set(valueOf(value, s.typ.Elem()))
+		}
+		return values.Interface(), nil
+	}
+
 	values := reflect.MakeSlice(s.typ, 0, len(s.children))
 	for _, child := range s.children {
 		value, err := child.execute(data)
